@@ -41,7 +41,7 @@ def cases(ctx):
 
 def judge(ctx, case):
     iso = ctx.iso
-    cfg = msgwork.materialise_cfg(ctx, case, iso.dumps)
+    cfg = msgwork.materialise_cfg(ctx, case, iso.dumps, iso.loads)
     msg = gen.unjsonable(case['msg'])
     enc, hexbm = case['enc'], case['hex']
     want = gen.expected_roundtrip(msg, cfg)
